@@ -218,6 +218,10 @@ func ParseVpsSpsPpsFromSeqHeader(payload []byte) (vps, sps, pps []byte, err erro
 }
 
 func ParseVpsSpsPpsFromEnhancedSeqHeader(payload []byte) (vps, sps, pps []byte, err error) {
+	if len(payload) < 1 {
+		return nil, nil, nil, nazaerrors.Wrap(base.ErrShortBuffer)
+	}
+
 	packetType := payload[0] & 0x0f
 
 	if packetType == 0 {
@@ -274,6 +278,11 @@ func parseVpsSpsPpsAnnexbFromRecord(payload []byte) (vps, sps, pps []byte, err e
 			end = len(payload) - i
 		}
 		nal := payload[i+4 : i+end]
+		if len(nal) == 0 {
+			// 两个start code紧挨着
+			i += end
+			continue
+		}
 		typ := ParseNaluType(nal[0])
 		switch typ {
 		case NaluTypeVps:
@@ -293,6 +302,11 @@ func parseVpsSpsPpsAnnexbFromRecord(payload []byte) (vps, sps, pps []byte, err e
 }
 
 func parseVpsSpsPpsFromRecord(payload []byte) (vps, sps, pps []byte, err error) {
+	// 28字节的固定部分加上vps数组的5字节头部
+	if len(payload) < 33 {
+		return nil, nil, nil, nazaerrors.Wrap(base.ErrShortBuffer)
+	}
+
 	index := 27
 	if numOfArrays := payload[index]; numOfArrays != 3 && numOfArrays != 4 {
 		return nil, nil, nil, nazaerrors.Wrap(base.ErrHevc)
